@@ -46,7 +46,8 @@ SIG_DOC_NAN = "reopened document: Calculate stores an action for a formula cell 
 PROFILE = {"add_formula_column": 10, "modify_formula": 6, "summary": 4, "update_summary": 1.5, "add_ref_column": 4,
            "reverse_column": 1, "update_record": 18, "bulk_update": 8, "remove_record": 8, "bulk_remove": 4,
            "replace_data": 2, "rename_column": 4, "modify_type": 5, "to_formula": 2, "to_data": 1,
-           "undo_earlier": 3, "malformed": 2, "trigger_column": 0, "trigger_config": 0, "unhashable_key": 5}
+           "undo_earlier": 3, "malformed": 2, "trigger_column": 0, "trigger_config": 0, "unhashable_key": 5,
+           "retype_empty": 6, "add_empty_column": 3}
 CFG = {"oracles": (), "n_bundles": 14, "profile": PROFILE, "hook": "gx.props.c07.install", "tie": False}
 
 
@@ -329,7 +330,7 @@ def run(ck):
               "model and implementation differ and the property's clauses hold (up to known findings) on all explored inputs: %s"
               % mism["diff"], mism)
   replay_witnesses(ck)
-  merged = _hist.run_histories(ck, CFG, n_quick=6, n_thorough=400)
+  merged = _hist.run_histories(ck, CFG, n_quick=16, n_thorough=400)
   ck.extra["reopens"] = merged["stats"].get("reopens", 0)
   ck.extra["numeric_drift_only_cells"] = merged["stats"].get("numeric_drift_only", 0)
   _hist.report(ck, merged, PROP, ())
